@@ -854,6 +854,8 @@ func runWalLeg(o *hx.Out, r *hx.Rng, f hx.Flags, replay []string) {
 		rr := hx.NewRng(f.Seed*1000003 + uint64(i))
 		if i%100 == 50 {
 			wiringScenario(o, rr, i, (i/100)%2 == 1)
+		} else if i%10 == 4 {
+			concurrentScenario(o, rr, i)
 		} else if i%3 == 2 {
 			corruptionScenario(o, rr, i)
 		} else if i%15 == 7 {
